@@ -114,6 +114,20 @@ Definition skip_parts (b : vbuf) (skip : N) : N * N :=
   let '(p, size) := buf_parts b in
   if size <=? skip then (p, 0) else (p + skip, size - skip).
 
+(** * ReadNBuf (src/io/mod.rs), the counting wrapper of read_n / recv_n: forwards everything to
+    the inner buffer and remembers the size of the last transfer — every transfer, also one of
+    0 bytes (that is how the read loops see the end of the stream). Both impls (BufMut,
+    BufMutSlice) have the same shape. *)
+Record readn (B : Type) := { rn_buf : B; rn_last : N }.
+Arguments rn_buf {B}. Arguments rn_last {B}.
+Definition readn_set_init (r : readn vbuf) (n : N) : readn vbuf :=
+  {| rn_buf := mut_set_init (rn_buf r) n; rn_last := n |}.
+Definition readn_mslice_set_init (r : readn (list vbuf)) (n : N) : option (readn (list vbuf)) :=
+  match mslice_set_init (rn_buf r) n with
+  | Some bs => Some {| rn_buf := bs; rn_last := n |}
+  | None => None
+  end.
+
 (** * IoSlice::{set_len, skip} as used by write_all_vectored: drop [skip] bytes front to back. *)
 Fixpoint skip_iovecs (iovs : list iov) (skip : N) : list iov :=
   match iovs with
